@@ -129,6 +129,43 @@ theorem reader_refines_spec_boolvector (s : Bytes) (hs : Inp s) (n : Nat) (w : S
     (h : Spec.sBoolList n w s = .ok (bits, r)) : Impl.pBools n true s = .ok (bits, r) :=
   (sBoolList_refines' hs h).1
 
+/-- **The SIZE section of SubStreamsInfo, for every input**: where the strict reader accepts the explicit sub-stream
+    sizes of folders with any numbers of streams (zero included) and derives each folder's last size from the
+    folder's unpack size, py7zr's reader reads the same sizes from the same bytes — these are the member boundaries
+    inside solid folders. `OneOut`: each folder has one result stream (py7zr takes the LAST unbound output, the
+    description the FIRST; folders with several unbound outputs are outside what either reader can decode). -/
+theorem reader_refines_spec_subsizes (ns : List Nat) (fs : List Spec.SFolder) (s : Bytes) (hs : Inp s)
+    (h1 : ∀ f ∈ fs, OneOut f) (out : List Nat) (r : Bytes) (h : Spec.sSubSizes ns fs s = .ok (out, r)) :
+    Impl.readSubSizes ns (fs.map folderOf) s = .ok (out, r) :=
+  (sSubSizes_refines ns fs s out r hs h1 h).1
+
+/-- **The whole StreamsInfo record, for every input.** Whenever the strict reader accepts a StreamsInfo (PackInfo,
+    UnpackInfo and SubStreamsInfo each present or absent; NumUnpackStream explicit or omitted; SIZE section present or
+    absent; digest section present or absent, with folder CRCs or not) whose folders have one result stream each,
+    the model of `StreamsInfo.read` — with its count guard `sum(NumUnpackStream) <= 8 * header size`, which the proof
+    shows never fires on an accepted record — succeeds on the same bytes, stops at the same place and returns the same
+    pack position and sizes, the same folders (`folderOf`), the same stream counts per folder and the same
+    sub-stream sizes (explicit where the SIZE section exists; where it does not, no folder has more than one stream
+    and py7zr derives the sizes from the folders later). Only the distribution of the digests is not compared (py7zr
+    keeps no folder CRC as a member CRC when the digest section is absent). With `assign_refines_spec` this is reader
+    conformance of everything that decides which bytes a member gets, as a theorem over all inputs. -/
+theorem reader_refines_spec_streams (total : Nat) (s : Bytes) (hs : Inp s) (hst : s.length ≤ total)
+    (ss : Spec.SStreams) (r : Bytes) (hone : ∀ f ∈ ss.folders, OneOut f) (h : Spec.sStreams s = .ok (ss, r)) :
+    ∃ st, Impl.readStreams total s = .ok (st, r) ∧
+      (∀ sp, ss.pack = some sp → ∃ ip, st.packinfo = some ip ∧ ip.packpos = sp.packpos ∧ ip.packsizes = sp.sizes) ∧
+      (ss.pack = none → st.packinfo = none) ∧
+      st.folders.getD [] = ss.folders.map folderOf ∧
+      (∀ x, st.substreams = some x → x.numUnpack = ss.numUnpack ∧
+        (x.unpacksizes = some ss.subSizes ∨ (x.unpacksizes = none ∧ ss.numUnpack.any (· > 1) = false))) ∧
+      (st.substreams = none → ss.numUnpack = ss.folders.map (fun _ => 1)) := by
+  obtain ⟨st, a, b, c, d, e, f, _⟩ := sStreams_refines hs hst hone h
+  exact ⟨st, a, b, c, d, e, f⟩
+
+/-- every folder whose coders are chained linearly without bind pairs to spare — one coder, no bind pair — has one
+    result (the shape of every folder of a one-coder chain) -/
+theorem oneOut_single (f : Spec.SFolder) (hb : f.bindpairs = []) (hu : f.unpackSizes.length ≤ 1) : OneOut f := by
+  intro i j hi hj _ _; omega
+
 -- non-vacuity: an UnpackInfo with two folders (Copy; BCJ2-like complex coder omitted), folder CRCs partially defined
 example : (Spec.sUnpackInfo [0x0B, 0x02, 0x00, 0x01, 0x01, 0x00, 0x01, 0x21, 0x21, 0x01, 0x18,
       0x0C, 0x05, 0x07, 0x0A, 0x00, 0x80, 0x78, 0x56, 0x34, 0x12, 0x00, 0xEE]).toOption.map (fun x => (x.1.length, x.2)) = some (2, [0xEE]) ∧
